@@ -532,6 +532,8 @@ class Gen:
       if r.random() < 0.75:
         bound[v] = ety
         props.append(('c', ('in', ('var', v), lst)))
+        if r.random() < 0.3:    # a second inclusion of the same variable: both lists are unnested and joined
+          props.append(('c', ('in', ('var', v), ('list', [self.lit(ety) for _ in range(r.choice([2, 3]))]))))
       else:
         lst = ('list', [self.lit(ety) for _ in range(r.choice([1, 2, 3]))])
         props.append(('c', ('in', self.expr_of(ety, bound_before, 1), lst)))
